@@ -6,7 +6,11 @@
 (* judgement `Judge' that says whether an observed result of a call is      *)
 (* acceptable: a member of the declared result type (Types!Member: by tag   *)
 (* and by content) and, for the pure helpers, what the documentation        *)
-(* states.                                                                  *)
+(* states: len, conversions, parse_int, the string helpers, bit counting,   *)
+(* byte swap, bit reversal, ilog*, float classification / to_bits /         *)
+(* from_bits / rounding of exact half-integers, the constants, and the      *)
+(* std.operators folds over array iterators (wrapping + and *, & | && ||,   *)
+(* string concatenation).  Everything else is judged by type only.          *)
 (*                                                                           *)
 (* Values are Types.tla values with these payloads:                         *)
 (*   int     [k |-> "int", l |-> <<b1..bNL>>]  little-endian 8-bit limbs,    *)
@@ -94,6 +98,21 @@ ULe(a, b) ==                                     \* a <= b as unsigned numbers
                 ELSE IF a[j] < b[j] THEN TRUE
                 ELSE IF a[j] > b[j] THEN FALSE ELSE Cmp(j - 1)
   IN Cmp(NL)
+
+\* wrapping (two's complement) sum and product, bitwise and / or: what + * & | are on ints
+AddL(a, b) ==
+  LET RECURSIVE A(_, _)
+      A(j, carry) == IF j > NL THEN <<>>
+                     ELSE LET s2 == a[j] + b[j] + carry IN <<s2 % 256>> \o A(j + 1, s2 \div 256)
+  IN A(1, 0)
+MulL(a, b) == LowHalf(UMul(a, b))
+AndL(a, b) == FromBitFn(LAMBDA i : BitAt(a, i) * BitAt(b, i), NL)
+OrL(a, b)  == FromBitFn(LAMBDA i : IF BitAt(a, i) + BitAt(b, i) > 0 THEN 1 ELSE 0, NL)
+AllOnesL == [j \in 1..NL |-> 255]
+FoldL(Op(_, _), init, es) ==                    \* left fold over the ints of an array value
+  LET RECURSIVE Fo(_, _)
+      Fo(acc, i) == IF i > Len(es) THEN acc ELSE Fo(Op(acc, es[i].l), i + 1)
+  IN Fo(init, 1)
 
 \* ilog: the k with base^k <= num < base^(k+1); none unless num > 0 and base >= 2
 ILogL(n, b) ==
@@ -353,6 +372,9 @@ TableWellFormed == Cardinality(ExportNames) = Len(Exports)
 (* [k |-> "join"] (split on the empty pattern: the pieces joined give the   *)
 (* string back) or [k |-> "type"] (only the declared result type).          *)
 (***************************************************************************)
+OperatorFns == {"std.operators.all", "std.operators.any", "std.operators.bitand_reduce", "std.operators.bitor_reduce",
+                "std.operators.int_sum", "std.operators.int_product", "std.operators.string_sum",
+                "std.operators.float_sum", "std.operators.float_product"}
 Exact(v) == [k |-> "exact", v |-> v]
 TypeOnly == [k |-> "type"]
 StrArr(ss) == ArrV(TString, [i \in 1..Len(ss) |-> StrV(ss[i])])
@@ -423,6 +445,18 @@ Pred(name, a) ==
     [] name = "std.math.round" -> RoundingPred("round", a[1].bl)
     [] name = "std.math.round_ties_even" -> RoundingPred("round_ties_even", a[1].bl)
     [] name = "std.math.trunc" -> RoundingPred("trunc", a[1].bl)
+    \* std.operators.f(it) is documented as `it $op'; for an iterator over an array (it = array~) that is
+    \* the fold of the operator over the elements
+    [] name \in OperatorFns /\ "of" \in DOMAIN a[1] ->
+         LET es == a[1].of.es IN
+         CASE name = "std.operators.all" -> Exact(BoolV(\A i \in 1..Len(es) : es[i].v))
+           [] name = "std.operators.any" -> Exact(BoolV(\E i \in 1..Len(es) : es[i].v))
+           [] name = "std.operators.bitand_reduce" -> Exact(IntL(FoldL(AndL, AllOnesL, es)))
+           [] name = "std.operators.bitor_reduce" -> Exact(IntL(FoldL(OrL, ZeroL, es)))
+           [] name = "std.operators.int_sum" -> Exact(IntL(FoldL(AddL, ZeroL, es)))
+           [] name = "std.operators.int_product" -> Exact(IntL(FoldL(MulL, NatL(1), es)))
+           [] name = "std.operators.string_sum" -> Exact(StrV(FlattenSeq([i \in 1..Len(es) |-> es[i].cps])))
+           [] OTHER -> TypeOnly                  \* float_sum / float_product: IEEE arithmetic
     [] name = "std.math.MIN_INT" -> Exact(IntL(MinL))
     [] name = "std.math.MAX_INT" -> Exact(IntL(MaxL))
     \* the binary64 nearest to pi / e (given facts about the constants, not computed)
@@ -453,7 +487,9 @@ ValOfWire(w) ==
     [] w.k = "tuple"  -> [k |-> "tuple", es |-> [i \in 1..Len(w.es) |-> ValOfWire(w.es[i])]]
     [] w.k = "struct" -> [k |-> "struct", fs |-> [f \in FieldNamesOf(w.fs) |-> ValOfWire(FieldOf(w.fs, f))]]
     [] w.k = "cell"   -> [k |-> "cell", ty |-> TypeOfWire(w.ty), c |-> ValOfWire(w.c)]
-    [] w.k = "fnv"    -> [k |-> "fnv", sig |-> TypeOfWire(w.sig)]
+    [] w.k = "fnv"    -> IF "of" \in DOMAIN w
+                         THEN [k |-> "fnv", sig |-> TypeOfWire(w.sig), src |-> w.src, of |-> ValOfWire(w.of)]
+                         ELSE [k |-> "fnv", sig |-> TypeOfWire(w.sig)]
     [] w.k = "int"    -> IntL(w.l)
     [] w.k = "float"  -> FloatB(w.bl)
     [] w.k = "string" -> StrV(w.cps)
